@@ -110,11 +110,22 @@ def apply_output(link, area, value):
         struct.pack_into("<" + link["size"], area, link["pos"], value)
 
 
-def draw_value(tape, link, label="grp"):
+def draw_value(tape, link, label="grp", truthy=False):
+    """a value for the linked variable; a quarter of the multi-byte values sit at the
+    boundaries of the 8/16/32/64-bit ranges. truthy: a bit may also be set with a true
+    value other than 1 (what an integer DeviceVar holds)"""
     if isinstance(link["size"], int):
+        if truthy and tape.chance(f"{label}/bit-truthy", 25):
+            return tape.pick(f"{label}/bit-truthy-value", [2, 4, 6, 0x80, 255])
         return bool(tape.draw(f"{label}/bitval", 2))
     fmt = link["size"]
     bits = 8 * struct.calcsize(fmt)
+    lo, hi = (-(1 << (bits - 1)), (1 << (bits - 1)) - 1) if fmt.islower() else (0, (1 << bits) - 1)
+    if tape.chance(f"{label}/boundary-value", 25):
+        cands = [x for x in (0, 1, -1, 127, 128, 255, 256, 0x7fff, 0x8000, 0xffff, 0x10000,
+                             0x7fffffff, 0x80000000, 0xffffffff, 0x100000000, -0x80000000,
+                             -0x80000001, lo, hi, hi - 1, lo + 1) if lo <= x <= hi]
+        return tape.pick(f"{label}/boundary", cands)
     v = tape.draw(f"{label}/val", 1 << min(bits, 32))
     if bits > 32:
         v |= tape.draw(f"{label}/valhi", 1 << (bits - 32)) << 32
